@@ -102,7 +102,9 @@ class Res:
             self.sample(s)
         self.outcomes.update(o.outcomes)
         for k, v in o.extra.items():
-            if isinstance(v, (int, float)):
+            if isinstance(v, (int, float)) and k.endswith('_max'):
+                self.extra[k] = max(self.extra.get(k, 0), v)
+            elif isinstance(v, (int, float)):
                 self.extra[k] = self.extra.get(k, 0) + v
             elif isinstance(v, list):
                 self.extra.setdefault(k, [])
